@@ -264,6 +264,9 @@ pub struct Cfg {
     pub events: bool,
     /// Clients whose app is built with one extra replication rule (a different protocol).
     pub mismatch: Vec<usize>,
+    /// With `hist`: only client entities with an even index get the markers; the others are
+    /// plain entities next to marked ones.
+    pub hist_mixed: bool,
     /// Replicate `F` with a deserialization function that rejects poisoned values.
     pub with_f: bool,
     /// Register `OwnedBy` as a second synchronized relationship.
@@ -299,6 +302,7 @@ impl Default for Cfg {
             hist: false,
             with_owner: false,
             with_f: false,
+            hist_mixed: false,
             backend_style: false,
         }
     }
@@ -507,8 +511,11 @@ pub fn build_app_with(cfg: &Cfg, extra_rule: bool) -> App {
         // a second marker that does not ask for history, with (ordinary) functions for `B`
         app.register_marker::<PlainMarker>()
             .set_marker_fns::<PlainMarker, B>(command_fns::default_write::<B>, command_fns::default_remove::<B>);
-        app.add_observer(|t: Trigger<OnAdd, Replicated>, mut commands: Commands| {
-            commands.entity(t.target()).insert((HistMarker, PlainMarker));
+        let mixed = cfg.hist_mixed;
+        app.add_observer(move |t: Trigger<OnAdd, Replicated>, mut commands: Commands| {
+            if !mixed || t.target().index() % 2 == 0 {
+                commands.entity(t.target()).insert((HistMarker, PlainMarker));
+            }
         });
     }
     app.finish();
@@ -843,6 +850,10 @@ pub struct Sim {
     /// Messages that were still in flight to a client when its last session ended (a transport
     /// may hand such stragglers over while the next connection is being established).
     pub stragglers: BTreeMap<usize, Vec<(usize, Bytes)>>,
+    /// Ticks of the update messages handed to each client so far.
+    pub delivered_update_ticks: BTreeMap<usize, BTreeSet<u32>>,
+    /// (client, client entity) -> (last tick, mask) of its confirmation history after the previous frame.
+    pub prev_hist: BTreeMap<(usize, u64), (u32, u64)>,
     pub acks: AckModel,
     /// (etag, ctag) -> (version, first tick at which that version was observable) of the last edit.
     pub last_edit: BTreeMap<(u8, u8), (u8, Option<u32>)>,
@@ -890,6 +901,8 @@ impl Sim {
             pending_drop: None,
             late_map_tick: BTreeMap::new(),
             stragglers: BTreeMap::new(),
+            delivered_update_ticks: BTreeMap::new(),
+            prev_hist: BTreeMap::new(),
             acks: AckModel::default(),
             last_edit: BTreeMap::new(),
             once_sent: BTreeMap::new(),
@@ -1653,6 +1666,11 @@ impl Sim {
         }
         let msgs = take(&mut self.clients[c].s2c[ch], sel);
         let n = msgs.len();
+        if ch == 0 {
+            for m in &msgs {
+                self.delivered_update_ticks.entry(c).or_default().insert(m.tick);
+            }
+        }
         if ch == 1 {
             for m in &msgs {
                 self.acks.delivered.insert((c, m.id));
@@ -1683,10 +1701,49 @@ impl Sim {
     /// (delivered and no longer waiting for its update tick), and exactly once.
     /// C12 with a history-keeping marker: the tick of every mutate message that was applied to an
     /// entity (and lies inside the 64-tick window) is answered as confirmed by the entity's history.
-    pub fn check_history(&self, c: usize, view: &ClientView) -> Result<(), Violation> {
+    pub fn check_history(&mut self, c: usize, view: &ClientView) -> Result<(), Violation> {
         use bevy_replicon::{client::confirm_history::ConfirmHistory, prelude::RepliconTick};
         if self.acks.format_unknown {
             return Ok(());
+        }
+        // An entity without a history marker skips data older than its last confirmed tick, so
+        // no tick older than that can become confirmed afterwards (except through an update
+        // message of that tick).
+        let mut now: Vec<((usize, u64), (u32, u64), bool)> = Vec::new();
+        for ce in view.ents.values() {
+            let ent = Entity::from_bits(ce.client_bits);
+            let w = self.clients[c].app.world();
+            let Some(h) = w.get::<ConfirmHistory>(ent) else { continue };
+            now.push(((c, ce.client_bits), (h.last_tick().get(), h.mask()), w.get::<HistMarker>(ent).is_some()));
+        }
+        for (key, (last, mask), marked) in &now {
+            if let Some(&(plast, pmask)) = self.prev_hist.get(key) {
+                if !marked && !tick_older(*last, plast) {
+                    for ago in 1..64u32 {
+                        let t = plast.wrapping_sub(ago);
+                        let d_now = last.wrapping_sub(t);
+                        if d_now >= 64 {
+                            break;
+                        }
+                        let confirmed_now = mask >> d_now & 1 == 1;
+                        let confirmed_before = pmask >> ago & 1 == 1;
+                        let by_update = self.delivered_update_ticks.get(&key.0).is_some_and(|s| s.contains(&t));
+                        if confirmed_now && !confirmed_before && !by_update {
+                            return Err(Violation::new(
+                                "",
+                                "older-tick-confirmed-without-history",
+                                format!(
+                                    "client c{c} entity {}: tick {t} is older than the entity's confirmed tick {plast} and was not confirmed, the entity carries no history marker, yet the tick is reported as confirmed now (last {last}, mask {mask:#b})",
+                                    Entity::from_bits(key.1)
+                                ),
+                            ));
+                        }
+                    }
+                }
+            }
+        }
+        for (key, v, _) in now {
+            self.prev_hist.insert(key, v);
         }
         for m in self.acks.all.iter().filter(|m| m.client == c) {
             if !self.acks.delivered.contains(&(c, m.id)) || tick_older(view.update_tick, m.update_tick) {
@@ -1699,6 +1756,10 @@ impl Sim {
                 let Some(h) = self.clients[c].app.world().get::<ConfirmHistory>(Entity::from_bits(ce.client_bits)) else {
                     continue;
                 };
+                // (a plain entity skips late data and rightly does not confirm its tick)
+                if self.clients[c].app.world().get::<HistMarker>(Entity::from_bits(ce.client_bits)).is_none() {
+                    continue;
+                }
                 let last = h.last_tick().get();
                 let ago = last.wrapping_sub(m.tick);
                 if tick_older(last, m.tick) {
